@@ -99,7 +99,8 @@ namespace nmtools::view
             }
             return result;
             #else // NMTOOLS_OPENCL_BUILD_KERNELS
-            return reduce_maximum(sliced,None,None,False);
+            // args: axis, dtype, initial, keepdims (passing False as 4th arg would set initial=0)
+            return reduce_maximum(sliced,None,None,None,False);
             #endif // NMTOOLS_OPENCL_BUILD_KERNELS
         };
     };
